@@ -35,6 +35,7 @@ def monitor(case, tr, raw):
     sw_old = {}
     finished = False
     idle = {}        # queued fiber -> {thread: polls since it became runnable}
+    owed = {}        # thread -> finished fiber it has just switched away from and must reclaim next
     for (t, loc, kind, val) in tr:
         if loc == 910 and kind == 99 and val == 0:
             # an idle kernel thread polls (twice per scheduler-loop iteration in T2); a queued, runnable fiber must be
@@ -60,6 +61,10 @@ def monitor(case, tr, raw):
             continue
         if kind != 919:
             continue
+        if t in owed and 951 <= loc <= 958 and loc != EV_RESUMED and not (loc == EV_DESTROY and val == owed[t]):
+            # do_maintenance reclaims the finished predecessor before anything else
+            return ("finished fiber %d was switched away from on thread %d and never reclaimed: the successor's "
+                    "maintenance moved on without destroying it" % (owed[t], t))
         if loc == 910 and val == 3:
             finished = True
         elif loc == EV_CREATE_T:
@@ -104,6 +109,8 @@ def monitor(case, tr, raw):
             ctx[old] = ('saved',)
             ctx[new] = ('live', t)
             cur[t] = new
+            if state.get(old) == 4 and old not in destroyed:
+                owed[t] = old
         elif loc == EV_DESTROY:
             f = val
             if f in destroyed:
@@ -116,6 +123,8 @@ def monitor(case, tr, raw):
             if pend.get(f, 0):
                 return "fiber %d reclaimed while queued" % f
             destroyed.add(f)
+            if owed.get(t) == f:
+                del owed[t]
     if not finished:
         return "the main fiber never finished (some fiber is stranded or the schedule bound was hit)"
     return None
